@@ -229,8 +229,6 @@ pub fn check_c15(case: &ConcCase, history: &History) -> Check {
     let accounted = history.buffered_at_end + stat("access_added") + stat("access_dropped");
     ensure!(accounted == harness_hits, "C15", if accounted < harness_hits { "C15/records-lost" } else { "C15/records-duplicated" }, "{} successful reads but buffered {} + AccessAdded {} + AccessDropped {} = {}", harness_hits, history.buffered_at_end, stat("access_added"), stat("access_dropped"), accounted);
     let buf = case.cfg.buf as u64;
-    ensure!((stat("access_added") + stat("access_dropped")) % buf == 0, "C15", "C15/partial-buffer", "AccessAdded {} + AccessDropped {} is not a multiple of the buffer size {}", stat("access_added"), stat("access_dropped"), buf);
-    ensure!(history.buffered_at_end <= (case.cfg.pool * case.cfg.buf) as u64, "C15", "C15/over-full-buffer", "{} records buffered in {} buffers of {}", history.buffered_at_end, case.cfg.pool, case.cfg.buf);
     match case.consumer {
         ConsumerMode::Stalled => {
             ensure!(history.applied_records == 0, "C15", "C15/applied-while-stalled", "{} records were applied while the consumer was stopped", history.applied_records);
